@@ -107,3 +107,6 @@ func (r *BytesReader) Read(p []byte) (int, error) {
 	r.pos += n
 	return n, nil
 }
+
+// Pos returns the number of bytes delivered so far.
+func (r *SchedReader) Pos() int { return r.pos }
